@@ -1,218 +1,13 @@
 """C20 — containers and the boolean normal form behave as their models.
-Lean: Model/{Dnf,...}.lean, Props/C20*.lean.  Tie: hand model + correspondence (H):
-harness/*_drv.c linked with the scratch build of /repo's current tree vs the Lean driver."""
-import itertools, os
+Lean: Model/*.lean, Props/C20*.lean.  Tie: hand models + correspondence (H): harness/*_drv.c
+linked with the scratch build of /repo's current tree vs the compiled Lean driver."""
 from vlib import common
-from vlib.common import VERIF
+from checks.parts import dnf
 
-DNF_THEOREMS = [("AldorVerif.Props.C20Dnf", "AldorVerif.Dnf." + t) for t in (
-    "dnf_sem_partial", "dnf_sem_statement_refuted", "dnf_or_sem_partial", "dnf_and_sem_partial",
-    "dnf_not_sem_partial", "dnf_implies_sound", "dnf_equal_sound", "dnf_implies_incomplete",
-    "and_merge_exact")]
-
-# ------------------------------------------------------------------ formulas
-def gen_formulas_exhaustive(atoms, depth):
-    """all formulas in Polish notation up to `depth` over the literals ±atoms, T, F"""
-    lv = [["T"], ["F"]] + [[str(s * a)] for a in atoms for s in (1, -1)]
-    levels = [lv]
-    allf = list(lv)
-    for d in range(depth):
-        new = []
-        prev = levels[-1]
-        older = [f for L in levels[:-1] for f in L]
-        for f in prev:
-            new.append(["~"] + f)
-        for op in ("&", "|"):
-            for f in prev:
-                for g in allf:
-                    new.append([op] + f + g)
-            for f in older:
-                for g in prev:
-                    new.append([op] + f + g)
-        levels.append(new)
-        allf += new
-    return allf
-
-def gen_formula_random(rng, natoms, depth):
-    if depth == 0 or rng.random() < 0.15:
-        r = rng.random()
-        if r < 0.04: return ["T"]
-        if r < 0.08: return ["F"]
-        return [str(rng.choice((1, -1)) * rng.randint(1, natoms))]
-    r = rng.random()
-    if r < 0.2:
-        return ["~"] + gen_formula_random(rng, natoms, depth - 1)
-    op = "&" if r < 0.6 else "|"
-    return [op] + gen_formula_random(rng, natoms, depth - 1) + gen_formula_random(rng, natoms, depth - 1)
-
-def eval_polish(toks, env):
-    """truth value of a Polish formula; returns (value, rest)"""
-    t = toks[0]
-    if t == "T": return True, toks[1:]
-    if t == "F": return False, toks[1:]
-    if t == "~":
-        v, r = eval_polish(toks[1:], env); return (not v), r
-    if t in "&|":
-        a, r = eval_polish(toks[1:], env)
-        b, r = eval_polish(r, env)
-        return ((a and b) if t == "&" else (a or b)), r
-    n = int(t)
-    return (env[abs(n)] if n > 0 else not env[abs(n)]), toks[1:]
-
-def parse_dnf(s):
-    # DNF{[1 -2] [3]}
-    assert s.startswith("DNF{") and s.endswith("}"), s
-    body = s[4:-1]
-    out = []
-    i = 0
-    while i < len(body):
-        if body[i] == "[":
-            j = body.index("]", i)
-            out.append([int(x) for x in body[i + 1:j].split()])
-            i = j + 1
-        else:
-            i += 1
-    return out
-
-def eval_dnf(d, env):
-    return any(all((env[abs(l)] if l > 0 else not env[abs(l)]) for l in c) for c in d)
-
-def atoms_of(toks):
-    return sorted({abs(int(t)) for t in toks if t not in ("T", "F", "~", "&", "|", ";")})
-
-def envs(atoms):
-    for bits in itertools.product((False, True), repeat=len(atoms)):
-        yield dict(zip(atoms, bits))
-
-def dnf_part(ctx, build):
-    exe = build.cc_driver("dnf_drv", os.path.join(VERIF, "harness", "dnf_drv.c"))
-    rng = ctx.rng
-    lines = []
-    # corpus first
-    corp = os.path.join(VERIF, "corpus", "dnf")
-    if os.path.isdir(corp):
-        for f in sorted(os.listdir(corp)):
-            lines += [l.strip() for l in open(os.path.join(corp, f)) if l.strip() and not l.startswith("#")]
-    ncorpus = len(lines)
-    thorough = ctx.tier == "thorough"
-    ex = gen_formulas_exhaustive([1, 2, 3] if not thorough else [1, 2, 3, 4], 2)
-    if not thorough and len(ex) > 60000:
-        ex = ex[:2000] + rng.sample(ex[2000:], 40000)
-    ex3 = gen_formulas_exhaustive([1, 2], 3) if thorough else []
-    if len(ex3) > 400000:
-        ex3 = rng.sample(ex3, 400000)
-    for f in ex + ex3:
-        lines.append("B " + " ".join(f))
-    nrand = 20000 if not thorough else 200000
-    for _ in range(nrand):
-        na = rng.choice((2, 3, 4, 4, 6, 10))
-        lines.append("B " + " ".join(gen_formula_random(rng, na, rng.randint(2, 6))))
-    for _ in range(nrand // 2):
-        na = rng.choice((2, 3, 4, 10))
-        f = gen_formula_random(rng, na, rng.randint(1, 4))
-        g = gen_formula_random(rng, na, rng.randint(1, 4))
-        if rng.random() < 0.3:
-            g = ["|"] + f + g      # make implications that hold more frequent
-        lines.append("%s %s ; %s" % (rng.choice("IE"), " ".join(f), " ".join(g)))
-    c = common.run_impl_lines(exe, lines)
-    m, tags = common.split_model(common.run_model("dnf", "\n".join(lines) + "\n"))
-    assert len(m) == len(lines), (len(m), len(lines))
-    stats = {"lines": len(lines), "corpus": ncorpus, "exhaustive": len(ex) + len(ex3), "mismatch": 0,
-             "sem_checked": 0, "multi_cancel": 0, "multi_cancel_wrong": 0, "implies_true": 0,
-             "implies_false_but_valid": 0, "faults": 0, "distinct_results": 0}
-    seen = set()
-    for k, ln in enumerate(lines):
-        toks = ln.split()
-        co = c[k] if k < len(c) else "MISSING"
-        mo = m[k]
-        multi = "multi=1" in tags[k]
-        if multi: stats["multi_cancel"] += 1
-        seen.add(co)
-        if co.startswith("FAULT") or co in ("MISSING", "SKIPPED"):
-            stats["faults"] += 1
-            ctx.finding("dnf|fault", "dnf.c faults (%s) on: %s" % (co, ln),
-                        {"kind": "impl-fault", "driver": "harness/dnf_drv.c", "line": ln, "impl": co, "model": mo})
-            continue
-        # executable property on the implementation's own output
-        ats = atoms_of(toks[1:])
-        impl_ok = True
-        why = ""
-        try:
-            if toks[0] == "B":
-                d = parse_dnf(co)
-                for env in envs(ats):
-                    if eval_dnf(d, env) != eval_polish(toks[1:], env)[0]:
-                        impl_ok = False; why = "normal form differs from formula under %s" % env; break
-                stats["sem_checked"] += 1
-            else:
-                r, rest = co.split(" ", 1)
-                i2 = rest.index("} DNF{") + 1
-                d1, d2 = parse_dnf(rest[:i2]), parse_dnf(rest[i2 + 1:])
-                valid_imp = all((not eval_dnf(d1, e)) or eval_dnf(d2, e) for e in envs(ats))
-                valid_eq = all(eval_dnf(d1, e) == eval_dnf(d2, e) for e in envs(ats))
-                valid = valid_imp if toks[0] == "I" else valid_eq
-                if r == "1":
-                    stats["implies_true"] += 1
-                    if not valid:
-                        impl_ok = False; why = "answered yes but the %s does not hold" % ("implication" if toks[0] == "I" else "equivalence")
-                elif valid:
-                    stats["implies_false_but_valid"] += 1
-                    if co == mo:
-                        ctx.finding("dnf|implies-incomplete",
-                                    "dnfImplies/dnfEqual answer no although the normal forms are logically related (sound, not complete), e.g. %s -> %s" % (ln, co),
-                                    {"kind": "impl-incomplete", "line": ln, "impl": co})
-                stats["sem_checked"] += 1
-        except Exception as e:
-            impl_ok = False; why = "unparsable driver output %r (%s)" % (co, e)
-        if co != mo:
-            stats["mismatch"] += 1
-            if not impl_ok:
-                ctx.finding("dnf|semantics|" + ln, "dnf.c result %s for `%s` is wrong: %s (model: %s)" % (co, ln, why, mo),
-                            {"kind": "impl-violates-property", "line": ln, "impl": co, "model": mo, "why": why,
-                             "replay_cmd": "echo '%s' | <dnf_drv built by ./check C20>" % ln})
-            else:
-                ctx.corr_broken.append(("dnf", ln, co, mo))
-        elif not impl_ok:
-            if multi:
-                stats["multi_cancel_wrong"] += 1
-                ctx.finding("dnf|dnfOrMerge-multi-cancel",
-                            "dnfOrMerge cancels a disjunct against the negation of a multi-literal disjunct (unsound; the suite's own test DNF2 expects it), e.g. `%s` -> %s: %s" % (ln, co, why),
-                            {"kind": "impl-violates-property", "line": ln, "impl": co, "why": why})
-            else:
-                ctx.violation("dnf|model-and-impl-wrong|" + ln, "implementation and model agree on `%s` -> %s but %s, and no multi-literal cancel fired (contradicts dnf_sem_partial: model/driver defect)" % (ln, co, why),
-                              {"kind": "inconsistent", "line": ln, "impl": co})
-        if k % 5000 == 17:
-            ctx.sample({"module": "dnf", "request": ln, "impl": co, "model": mo, "tags": tags[k]})
-    stats["distinct_results"] = len(seen)
-    ctx.cov["dnf"] = stats
-    ctx.cov["evaluations"] += len(lines)
-    ctx.cov["distinct_nontrivial"] += len(seen)
-    return stats
+PARTS = [dnf]
 
 def run(ctx):
-    ctx.corr_broken = []
-    build = common.Build()
-    ctx.cov["repo_build_s"] = round(build.wall, 1)
-    theorems = list(DNF_THEOREMS)
-    proved = ctx.prove(["AldorVerif.Props.C20Dnf"], theorems)
-    ctx.trusted += ["hand models lean/AldorVerif/Model/Dnf.lean of dnf.c (all functions but dnfMap/dnfExpandImplies/dnfAlias/printing)",
-                    "correspondence drivers harness/dnf_drv.c + lean/AldorVerif/Driver/Dnf.lean, python truth-table oracle in checks/c20.py",
-                    "sources: %s" % common.source_fingerprint(["dnf.c", "table.c", "btree.c", "priq.c", "bitv.c"])]
-    dnf_part(ctx, build)
-    ctx.cov["rule"] = ("request lines (corpus, exhaustive small formulas, seeded random); an answer is non-trivial+distinct "
-                       "when the implementation's printed result differs from every earlier one")
-    if ctx.corr_broken:
-        mod, ln, co, mo = ctx.corr_broken[0]
-        ctx.violation("%s|correspondence" % mod,
-                      "correspondence %s model<->implementation broken on %d request(s), e.g. `%s`: impl %s, model %s; the implementation's outputs satisfy the executable property on all explored inputs" % (mod, len(ctx.corr_broken), ln, co, mo),
-                      {"kind": "correspondence-broken", "module": mod, "first": {"line": ln, "impl": co, "model": mo},
-                       "count": len(ctx.corr_broken), "theorems_no_longer_tied": [t for _, t in theorems]},
-                      found_input=False)
-    if not proved:
-        common.report_proof_failure(ctx, "C20 Lean obligations")
+    common.run_parts(ctx, PARTS)
 
 def replay(ctx, path):
-    import json
-    r = json.load(open(path))
-    print(json.dumps(r, indent=1))
-    return 0
+    return common.show_replay(path)
